@@ -63,6 +63,10 @@ func VerifC07_ACL(h *zz.H) {
 		sl.UpdatesOnly = h.Range("updates_only", 0, 1) == 1
 	}
 	recvd := 0
+	npolls := 0
+	if mode == pb.SubscriptionList_POLL {
+		npolls = h.Range("polls", 0, h.Param("POLLS", 1))
+	}
 	polls := make(chan bool)
 	st := &vStream{ctx: context.Background(), h: h, first: &pb.SubscribeRequest{Request: &pb.SubscribeRequest_Subscribe{Subscribe: sl}}, polls: polls, block: mode == pb.SubscriptionList_STREAM}
 	gotA, gotB, delA, delB := 0, 0, 0, 0
@@ -126,8 +130,12 @@ func VerifC07_ACL(h *zz.H) {
 	case pb.SubscriptionList_ONCE:
 		h.Assert(<-done == nil, "C07: an authorised ONCE call ends successfully")
 	case pb.SubscriptionList_POLL:
-		<-synced // the client half-closes after it received the snapshot
-		close(polls)
+		<-synced // the client received the snapshot
+		for i := 0; i < npolls; i++ {
+			polls <- true // a poll trigger: the snapshot is sent again, filtered like the first one
+			<-synced
+		}
+		close(polls) // client half-close
 		h.Assert(<-done == nil, "C07: an authorised POLL call ends successfully")
 	default:
 		// STREAM: updates and deletes for both targets after the subscription started; on an
@@ -181,5 +189,5 @@ func VerifC07_ACL(h *zz.H) {
 			nsync++
 		}
 	}
-	h.Assert(nsync == 1, "C07: exactly one sync_response")
+	h.Assert(nsync == 1+npolls, "C07: exactly one sync_response per request / poll trigger")
 }
